@@ -241,7 +241,7 @@ func manualSnippets() []string {
 }
 
 func checkC05(c *Ctx) {
-	c.rule = "inputs = every prefix of every corpus/manual program, random single/multi mutations (delete, duplicate, splice, replace from a hostile alphabet), all strings up to a length bound over critical alphabets, runs of 200 … 100000 (thorough: 3 million) opening brackets / operators / nested block headers; each goes through syntax.Parser.Parse under a logical tick budget and, on error, through exec.DisplayError; block headers (令： 如果 每当 遍历 如何 定义 否则 再如 拦截) whose block holds only separators / comments, names written as an empty pair of backticks; plus input-variable texts through exec.ExecVarInputText (a text the compiler rejects must reach the user with the compiler's error code and the line of the offending character). distinct_nontrivial = distinct (outcome kind, error code, first 3 tree node kinds / error line) classes among inputs that are not the empty string"
+	c.rule = "inputs = every prefix of every corpus/manual program, random single/multi mutations (delete, duplicate, splice, replace from a hostile alphabet), all strings up to a length bound over critical alphabets, runs of 200 … 100000 (every bracket kind also 1.5 million; thorough: 3 million) opening brackets / operators / nested block headers; each goes through syntax.Parser.Parse under a logical tick budget and, on error, through exec.DisplayError; block headers (令： 如果 每当 遍历 如何 定义 否则 再如 拦截) whose block holds only separators / comments, names written as an empty pair of backticks; plus input-variable texts through exec.ExecVarInputText (a text the compiler rejects must reach the user with the compiler's error code and the line of the offending character). distinct_nontrivial = distinct (outcome kind, error code, first 3 tree node kinds / error line) classes among inputs that are not the empty string"
 	c.assumptions = []string{"tick hooks H5 count parser progress; a budget of 64*(len+16)+2000 ticks is >10x what any accepted corpus program needs", "physical lines are split on CR, LF, CRLF, LFCR"}
 	rng := c.Rand("c05")
 	seeds := append([]string{}, corpus...)
@@ -391,6 +391,15 @@ func checkC05(c *Ctx) {
 		add([]rune(sb.String()))
 	}
 	c.Count("deep_nesting_inputs", int64(len(deep)*29))
+	if c.Quick() {
+		// the bracket kinds at a depth that only a guard on every recursive path survives (a few
+		// hundred thousand levels still fit the Go stack; the bounded parser refuses at once)
+		for _, unit := range []string{"{", "【", "（显示：", "{【", "【1，", "【“k” = ", "以甲（乙："} {
+			add([]rune(strings.Repeat(unit, 1500000)))
+			add([]rune("令甲 = " + strings.Repeat(unit, 1500000) + "1"))
+		}
+		c.Count("deep_nesting_inputs", 14)
+	}
 
 	reqs := make([]Req, len(inputs))
 	for i, in := range inputs {
